@@ -19,6 +19,7 @@ func checkC07(c *Check) {
 	}
 	to := 40 * time.Minute
 	if os.Getenv("VERIF_C07_ONLY") != "" {
+		os.Setenv("VERIF_NO_EVIDENCE", "1")
 		checkC07Entries(c)
 		return
 	}
